@@ -61,6 +61,7 @@ func (t Term) String() string { return t.S() }
 var (
 	defs     []string
 	defNames = map[string]string{}
+	defBodies = map[string]string{}
 	defSent  int
 )
 
@@ -104,6 +105,7 @@ func mk(w int, format string, args ...interface{}) Term {
 		n := fmt.Sprintf("t%d", len(defs))
 		defs = append(defs, fmt.Sprintf("(define-fun %s () %s %s)", n, sortS(w), e))
 		defNames[e] = n
+		defBodies[n] = e
 		return Term{W: w, E: n}
 	}
 	return Term{W: w, E: e}
